@@ -12,13 +12,15 @@ PROPS = {
     "C13": dict(
         module="SeliumModel.Props.C13",
         suites=["backoff"],
+        fn_tie=dict(module="SeliumModel.Props.C13Gen", gen="BackoffFn"),
         level="proof",
         rule="grid of strategy x step x factor x attempts x max-delay (incl. 0, 1 ns, u32/u64 edges, Duration::MAX) plus seeded random configurations; "
              "each case is one configuration whose first <=take attempts are drawn from the real iterator and from the Lean model and compared item by item; "
              "distinct = distinct configuration lines, trivial = configurations with 0 attempts",
         trusted_base=COMMON_TRUST + [
             "std: u128::checked_mul / checked_pow return None exactly on overflow; Duration::new/as_nanos/min",
-            "modelled by hand, not translated: BackoffStrategyIter::next and saturating_mul (client/src/keep_alive/backoff_strategy.rs)",
+            "BackoffStrategyIter::next and saturating_mul (client/src/keep_alive/backoff_strategy.rs) are BOTH modelled by hand (Backoff.lean) and printed from the source by the translator on every run (Gen/BackoffFn.lean, over the prelude Rs.lean); Lemmas/BackoffGen.lean proves the two equal for every argument, Props/C13Gen.lean states the schedule theorem about the generated definitions. Trusted there: the translator's printing of the Rust subset (integer / Duration arithmetic as Nat operations, casts as truncations, checked_* with their widths, match / if / let / early return) and that `+`/`-` do not wrap inside next() (they cannot: 1 <= counter <= max_attempts <= u32::MAX, hypotheses of the theorem)",
+            "if a refactor takes next()/saturating_mul out of the translated subset, the generated-definition theorems are reported as not discharged in that run (no alarm) and the correspondence budgets are multiplied",
         ],
         assumptions=[
             "step <= Duration::MAX, max_attempts <= u32::MAX, factor <= u64::MAX (ranges of the Rust types; hypotheses of the theorems)",
